@@ -77,11 +77,32 @@ func expectedSets(c *Chain, ctx sdk.Context) (bonded, all []expVal) {
 	return
 }
 
+func describeSet(s bridgetypes.BridgeValidatorSet) []string {
+	var out []string
+	for _, v := range s.BridgeValidatorSet {
+		out = append(out, fmt.Sprintf("%x:%d", v.EthereumAddress[:3], v.Power))
+	}
+	return out
+}
+
+func describeExp(s []expVal) []string {
+	var out []string
+	for _, v := range s {
+		out = append(out, fmt.Sprintf("%x:%d", v.addr[:3], v.power))
+	}
+	return out
+}
+
 func powerShift(old bridgetypes.BridgeValidatorSet, cur []expVal) (delta, total *big.Int) {
 	m := map[string]*big.Int{}
 	total = new(big.Int)
 	for _, v := range old.BridgeValidatorSet {
-		m[string(v.EthereumAddress)] = new(big.Int).SetUint64(v.Power)
+		// two operators can be registered with one EVM address (known finding F26): their powers add up
+		if x, ok := m[string(v.EthereumAddress)]; ok {
+			x.Add(x, new(big.Int).SetUint64(v.Power))
+		} else {
+			m[string(v.EthereumAddress)] = new(big.Int).SetUint64(v.Power)
+		}
 		total.Add(total, new(big.Int).SetUint64(v.Power))
 	}
 	for _, v := range cur {
@@ -139,7 +160,7 @@ func (m *C16Monitor) AfterCommit(c *Chain, ctx sdk.Context, br *BlockResult) {
 				c.Violate("C16", "c16", "checkpoint-cut-without-5pct-shift-or-staleness", map[string]interface{}{"age": age.String()})
 			}
 			if !cut && shouldA && shouldB {
-				c.Violate("C16", "c16", "checkpoint-not-cut-although-rule-demands", map[string]interface{}{"age": age.String(), "stale": stale})
+				c.Violate("C16", "c16", "checkpoint-not-cut-although-rule-demands", map[string]interface{}{"age": age.String(), "stale": stale, "last_checkpoint_set": describeSet(last.set), "bonded_now": describeExp(bondedSet), "all_now": describeExp(allSet)})
 			}
 		}
 	} else if len(m.cps) == 0 && len(allSet) > 0 && !cut && m.haveIdx {
